@@ -4,7 +4,7 @@ From Coq Require Import ZArith List.
 From Coq Require Import Floats.PrimFloat.
 From Sketchnu Require Import Machine CmsLinear CmsLinearProofs.
 From Coq Require Import Reals.
-From Sketchnu Require CmsLog CmsLogProofs HH HHProofs LogLaw Consts Kernels KernelTie.
+From Sketchnu Require CmsLog CmsLogProofs HH HHProofs LogLaw Consts KernelsCountmin KernelTieCountmin.
 Import ListNotations.
 Open Scope Z_scope.
 
@@ -170,11 +170,11 @@ Print Assumptions C18_K1_unsolvable.
    as reals): _func is the modelled polynomial and _funcprime is its derivative - reverting the F3 repair, or any
    other edit of these two functions, breaks this obligation *)
 Theorem C18_func_source_tie : forall (b : R) (mc nr um : Z), nr <= um ->
-  Kernels.gen_func b mc nr um = LogLaw.func (IZR mc - IZR nr) (Z.to_nat (um - nr)) b.
-Proof. exact KernelTie.tie_func. Qed.
+  KernelsCountmin.gen_func b mc nr um = LogLaw.func (IZR mc - IZR nr) (Z.to_nat (um - nr)) b.
+Proof. exact KernelTieCountmin.tie_func. Qed.
 Print Assumptions C18_func_source_tie.
 
 Theorem C18_funcprime_source_is_derivative : forall (b : R) (mc nr um : Z), nr < um ->
-  derivable_pt_lim (fun x => Kernels.gen_func x mc nr um) b (Kernels.gen_funcprime b mc nr um).
-Proof. exact KernelTie.gen_funcprime_is_derivative. Qed.
+  derivable_pt_lim (fun x => KernelsCountmin.gen_func x mc nr um) b (KernelsCountmin.gen_funcprime b mc nr um).
+Proof. exact KernelTieCountmin.gen_funcprime_is_derivative. Qed.
 Print Assumptions C18_funcprime_source_is_derivative.
